@@ -23,7 +23,7 @@ class CsrEvMonWorld(World):
                    "write_zero_mask", "read_while_events_arrive", "event_map_queried_before_complete",
                    "second_instance_in_process",
                    "decoder_windows_at_explicit_addresses_in_any_order", "domain_reset",
-                   "repeated_add")
+                   "repeated_add", "sole_subordinate_padded_to_the_whole_space", "stray_unassigned_access")
     assumptions = (
         "Amaranth's Python RTL simulator executes the elaborated netlist faithfully",
         "a reset of the clock domain returns the component to its initial state (the state the "
@@ -53,7 +53,8 @@ class CsrEvMonWorld(World):
                                                         if a != b]),
                 "dec_mon_first": int(rng.chance(0.5)), "omit": int(rng.chance(0.3)),
                 "dec_al": rng.choice([0, 0, 1, 2, 3]),
-                "readd": rng.bits(16) if rng.chance(0.25) else 0}
+                "readd": rng.bits(16) if rng.chance(0.25) else 0,
+                "solo": int(rng.chance(0.12))}
 
     def gen_ops(self, rng, config, prop):
         dw = config["dw"]
@@ -64,6 +65,10 @@ class CsrEvMonWorld(World):
             if k < 15:
                 ops.append({"k": "idle", "n": rng.range(1, 3)} if not rng.chance(p_rst)
                            else {"k": "reset"})
+            elif k < 19:
+                # a stray access outside the registers (kept only if the address is unassigned)
+                ops.append({"k": "raw", "addr": rng.bits(16), "r": rng.below(2), "w": rng.below(2),
+                            "data": rng.bits(dw)})
             elif k < 23:
                 ops.append({"k": "weave", "reg": rng.below(2), "rn": rng.below(12),
                             "wn": rng.below(12), "ord": [rng.below(3) for _ in range(8)],
@@ -121,7 +126,14 @@ class CsrEvMonWorld(World):
                               **hw.spelled(True, {"alignment": 0},
                                            alignment=int(config.get("dec_al") or 0)))
             slots = config.get("dec_slots")
-            if not slots:
+            if config.get("solo"):
+                # the monitor is the decoder's only subordinate and the decoder's alignment equals
+                # its own address width: the window is padded to the whole space, the addresses
+                # beyond the monitor stay unassigned
+                dec = csr.Decoder(addr_width=unit + 2, data_width=dw, alignment=unit + 2)
+                dec.add(dut.bus, name="mon")
+                stats.fault("sole_subordinate_padded_to_the_whole_space")
+            elif not slots:
                 dec.align_to(unit)
                 dec.add(_pad_bus(csr, dw), name="pad")
                 dec.add(dut.bus, name="mon")
@@ -164,6 +176,11 @@ class CsrEvMonWorld(World):
         rf = RegFile(dw, specs)
         aw = len(bus.addr)
         hwseed = config["hwseed"]
+        mapped_ = set()
+        for sp in specs:
+            mapped_.update(range(sp.start, sp.end))
+        ops = [op if op.get("k") != "raw" or (int(op.get("addr", 0)) & ((1 << aw) - 1)) not in mapped_
+               else {"k": "idle", "n": 1} for op in ops]
         cycles = expand_csr_ops(ops, [(s.start, s.end) for s in specs], aw, dw,
                                 lambda t, bits: 0)
         sim = hw.build_sim(top)
@@ -229,6 +246,8 @@ class CsrEvMonWorld(World):
                     stats.fault("event_in_clearing_cycle")
                 if tag == "gap":
                     stats.fault("gap")
+                if tag == "raw":
+                    stats.fault("stray_unassigned_access")
                 if tag == "txn-abort" and (t + 1 == len(cycles) or cycles[t + 1][4] != "txn-abort"):
                     stats.fault("abort")
                 if rf.cur == 1 and trg and not e.txn_start:
